@@ -82,6 +82,24 @@ func (m *Durable) Step(c *sim.Cluster) *common.Violation {
 			return viol("C04", "apply-without-majority", "index %d (term %d, %q) applied while only %d of %d voters hold it on disk", idx, term, data, have, voters)
 		}
 	}
+	// "From then on it is never lost": nodes never delete a committed entry, so
+	// a majority of the voters keeps holding every acknowledged or applied
+	// operation (in its log or in a closed snapshot) in every later state.
+	for _, op := range c.Ops {
+		if op.Kind != "write" || !m.ackSeen[op.ID] {
+			continue
+		}
+		o := op.Resp.Operation
+		if have, voters := holders(c, o.LogIndex, o.LogTerm, op.Data); have*2 <= voters {
+			return viol("C04", "acknowledged-entry-left-the-majority", "write %q (index %d term %d) was acknowledged, now only %d of %d voters hold it on disk", op.Data, o.LogIndex, o.LogTerm, have, voters)
+		}
+	}
+	for _, idx := range m.A.Indices() {
+		term, data, _ := m.A.First(idx)
+		if have, voters := holders(c, idx, term, data); have*2 <= voters {
+			return viol("C04", "applied-entry-left-the-majority", "index %d (term %d, %q) was applied, now only %d of %d voters hold it on disk", idx, term, data, have, voters)
+		}
+	}
 	return nil
 }
 
